@@ -921,7 +921,7 @@ def gen_case(rng, opname):
         sp = {"name": opname, "probability": prob_for(rng, True)}
         st = rng.choice(["random", "random", "identical", "complement"])
         k = 2 if opname == "SSX" else rng.choice([1, 2])
-        if opname == "SSX" and rng.random() < 0.12:
+        if opname == "SSX" and rng.random() < 0.25:
             return sp, ts, gen_malformed_subsets(rng, ts, k), "malformed", True
         return sp, ts, gen_parents(rng, ts, k, st), st, malformed
     if opname == "GAOperator":
@@ -1126,7 +1126,7 @@ def one_case(ctx, opname, opspec, tspecs, pspecs, rs, style, malformed, stats, l
             stats["_inexact_reasons"][why.split(":")[0]] += 1
         else:
             lits.append(case_literal(opspec, tspecs, pspecs, r))
-            litinfo.append((opname, opspec, tspecs, pspecs, rs))
+            litinfo.append((opname, opspec, tspecs, pspecs, rs, malformed))
             st["shipped"] += 1
     if wrote or r["injected"] or style in ("identical", "centroid", "collinear", "bound", "near", "malformed"):
         ctx.mark((opname, json.dumps([opspec, tspecs, pspecs], sort_keys=True, default=str), json.dumps(rs, sort_keys=True)))
@@ -1194,6 +1194,20 @@ def run(ctx):
         for key, what in oracle_call(sp, tspecs, pspecs, rs, r):
             ctx.violation(key, what, replay_dict(sp, tspecs, pspecs, rs, r))
     stats["_oracle_only_wide_bounds_calls"] = extra
+    ctx.assumptions += [
+        "lb <= ub (finite) for every Real type; Real(lb,lb) with PM divides by zero: rejected configuration",
+        "PCX / UNDX are given >= 2 parents (one parent divides by k-1 = 0: rejected input)",
+        "Subset(elements, 0) with Replace and Permutation([]) with Swap/Insertion/PMX call randrange(0): rejected configurations",
+        "an int `probability` (PM, UM, BitFlip) needs at least one variable of the operator's type, else ZeroDivisionError: rejected configuration (reported to the coordinator)",
+        "UM on bounds whose difference overflows (e.g. Real(-1e308, 1e308)): random.uniform itself returns inf/NaN and UM does not clip: rejected configuration (reported to the coordinator)",
+        "PMX parents are duplicate-free permutations of the same declared elements; `elements` of a Subset type is duplicate-free",
+        "the scalar float formulas (pow, sqrt, gauss-scaled sums) are not interpreted by the model: their results enter as DVal tape entries; freedom from exceptions inside them rests on the oracle",
+        "PCX/UNDX guard structure is modelled over exact rationals; calls whose is_zero tests are rounding-sensitive are excluded from the replay (counted in input_distribution.*.discarded_inexact) and checked by the oracle only",
+        "members handed to GAOperator / CompoundOperator / CompoundMutation / Multimethod satisfy the operator contract (op_ok / mut_ok); the shipped operators are proved to",
+    ]
+    ctx.coverage["parent_snapshots_compared"] = sum(v["calls"] for k, v in stats.items() if isinstance(v, dict) and "calls" in v)
+    ctx.coverage["explanation"] = ("parents-unchanged is structural in the functional model; on the implementation it is covered by the frame check obligation "
+                                   "and by a deep snapshot of every parent (all fields) before/after each of the calls counted in parent_snapshots_compared")
     ctx.coverage["input_distribution"] = stats
     ctx.rule = ("per operator (16 operators + GAOperator, CompoundOperator, CompoundMutation, Multimethod): structured problems (1-5 variables, own type + foreign types the "
                 "operator must skip; bounds incl. adjacent floats and ranges whose width overflows; permutations of 1-8 int/str/tuple elements; subsets incl. size = |elements|) "
@@ -1214,8 +1228,11 @@ def run(ctx):
         ctx.coverage["correspondence_mismatches"] = len(bad)
         # search in the neighbourhood of disagreeing calls: same problem/parents, other streams, exchanged parents
         for i in bad[:6]:
-            opname, opspec, tspecs, pspecs, rs = litinfo[i]
-            ctx.sample({"model_impl_disagree": {"operator": opspec, "types": tspecs, "parents": pspecs, "random": rs}}, limit=12)
+            opname, opspec, tspecs, pspecs, rs, malformed = litinfo[i]
+            ctx.sample({"model_impl_disagree": {"operator": opspec, "types": tspecs, "parents": pspecs, "random": rs,
+                                                "malformed_parents(correspondence only)": malformed}}, limit=12)
+            if malformed:
+                continue      # invalid parents are outside the property: no oracle verdict on them
             for j in range(30):
                 rs2 = dict(rs, seed=rs["seed"] + 1 + j)
                 ps2 = list(reversed(pspecs)) if j % 2 else pspecs
